@@ -86,7 +86,7 @@ fn main() {
         root,
         replay,
     };
-    let code = match id.as_str() {
+    let code = std::panic::catch_unwind(std::panic::AssertUnwindSafe(|| match id.as_str() {
         "C01" => c01::run(&run),
         "C02" => c02::run(&run),
         "C03" => c03::run(&run),
@@ -108,6 +108,13 @@ fn main() {
         "C19" => c19::run(&run),
         "C20" => c20::run(&run),
         _ => common::machinery(&format!("no check for {}", id)),
-    };
-    std::process::exit(code);
+    }));
+    match code {
+        Ok(c) => std::process::exit(c),
+        Err(p) => {
+            // a panic of the harness itself (or of the subject in a place the harness does not
+            // guard) is a machinery failure, never a verdict
+            common::machinery(&format!("the checker panicked: {}", common::payload_str(p.as_ref())));
+        }
+    }
 }
